@@ -788,6 +788,9 @@ type Conn struct {
 	forced     bool
 	rdl        time.Time
 	wdl        time.Time
+	// wtok serialises windowed writers: like a kernel socket, one Write call's bytes are never
+	// interleaved with another's (a channel, so that waiting for it is a durable block)
+	wtok chan struct{}
 	// Segment, when set, splits each Write into the chunks the reader will see one per Read.
 	Segment func(b []byte) [][]byte
 	// Received accumulates everything this end has read (harness-side ends use ReadAvailable).
@@ -953,6 +956,18 @@ func (c *Conn) Write(b []byte) (int, error) {
 func (c *Conn) writeWindowed(b []byte) (int, error) {
 	h := c.wr
 	written := 0
+	c.mu.Lock()
+	if c.wtok == nil {
+		c.wtok = make(chan struct{}, 1)
+	}
+	tok := c.wtok
+	c.mu.Unlock()
+	select {
+	case tok <- struct{}{}:
+		defer func() { <-tok }()
+	case <-c.closedCh:
+		return 0, closedErr("write", c.local)
+	}
 	for written < len(b) {
 		c.mu.Lock()
 		closed, dl := c.closed, c.wdl
